@@ -498,6 +498,14 @@ impl TransactionCoordinator {
         Ok(())
     }
 
+    /// Whether the transaction is still running (it may have been aborted from outside, by VACUUM).
+    pub fn is_active(&self, txid: TransactionId) -> bool {
+        self.transactions
+            .read()
+            .get(&txid)
+            .is_some_and(|entry| entry.state == TransactionState::Active)
+    }
+
     fn set_transaction_state(
         &self,
         txid: TransactionId,
@@ -693,6 +701,13 @@ impl TransactionHandle {
 
     pub fn can_commit(&self) -> bool {
         self.commit_handle.is_some()
+    }
+
+    /// Whether the transaction is open and has not been aborted behind the handle's back.
+    pub fn is_active(&self) -> bool {
+        self.commit_handle
+            .as_ref()
+            .is_some_and(|handle| handle.coordinator.is_active(self.id))
     }
 
     pub fn commit(&mut self) -> TransactionResult<()> {
